@@ -1,7 +1,8 @@
 #!/bin/bash
 # usage: seedtest.sh <patch.diff> <Cxx> [more Cxx...]   (env VERIF_SEED, TIER=quick|thorough)
 # Applies the patch to a scratch clone of /repo (so that /repo itself is never disturbed while builders use it),
-# runs the given checks against it via WHATSHAP_REPO, prints rc per check, removes the clone.
+# runs the given checks against it via WHATSHAP_REPO, prints rc per check, removes the clone.  Evidence and replays of
+# these runs go to /var/tmp/mut/out (never into /verif/evidence, which only holds runs against /repo itself).
 set -u
 PATCH=$(readlink -f "$1"); shift
 S=/var/tmp/mut/repo-$$
@@ -10,7 +11,7 @@ git clone -q /repo "$S" || exit 2
 if ! git -C "$S" apply "$PATCH"; then echo "PATCH DOES NOT APPLY"; rm -rf "$S"; exit 2; fi
 cd /verif
 for P in "$@"; do
-  WHATSHAP_REPO="$S" harness/check.py "$P" --tier "${TIER:-quick}" > /var/tmp/mut/out-$$-$P.txt 2>&1
+  WHATSHAP_REPO="$S" WHVERIF_OUTROOT=/var/tmp/mut/out harness/check.py "$P" --tier "${TIER:-quick}" > /var/tmp/mut/out-$$-$P.txt 2>&1
   rc=$?
   echo "== $P rc=$rc"; grep -E "VIOLATION|KNOWN-FINDING|^\[" /var/tmp/mut/out-$$-$P.txt | head -5
   rm -f /var/tmp/mut/out-$$-$P.txt
